@@ -349,10 +349,20 @@ def tla_set(items):
     return "{" + ", ".join('"%s"' % i for i in items) + "}"
 
 
-def model_check(module, consts, invariants, workers=8, timeout=900, tag="mc", expect_violation=None, **kw):
+ACTION_COV_RE = re.compile(r"^<(\w+) line \d+, col \d+ to line \d+, col \d+ of module (\w+)>: (\d+):(\d+)", re.M)
+
+
+def model_check(module, consts, invariants, workers=8, timeout=900, tag="mc", expect_violation=None, coverage=False, **kw):
     """Model-checks a spec.  With expect_violation=<invariant name> the run is a
-    negative control and MUST report that invariant violated."""
-    res = tlc(module, cfg(consts, invariants=invariants, **kw), workers=workers, timeout=timeout, tag=tag)
+    negative control and MUST report that invariant violated.  With coverage=True TLC's per-action
+    counts are returned in res["actions"] (action -> distinct states it produced)."""
+    res = tlc(module, cfg(consts, invariants=invariants, **kw), workers=workers, timeout=timeout, tag=tag,
+              extra_args=["-coverage", "1"] if coverage else None)
+    if coverage:
+        acts = {}
+        for m in ACTION_COV_RE.finditer(res["out"]):
+            acts[m.group(1)] = max(acts.get(m.group(1), 0), int(m.group(3)))
+        res["actions"] = acts
     if expect_violation:
         if ("Invariant %s is violated" % expect_violation) not in res["out"]:
             raise HarnessError("negative control %s/%s: TLC did not report %s violated\n%s" %
